@@ -1166,7 +1166,9 @@ def _vec_insert(M, a, info):
 def _to_vec(M, a, info):
     v = a[0]
     if type(v) is RVec: return v
-    return RVec([M.clone(x) for x in M.as_list(_opt(v))])
+    lst = M.as_list(_opt(v))
+    if lst is None: raise Unsupported('to_vec of %r' % (v,))
+    return RVec([M.clone(x) for x in lst])
 
 
 @model('slice::last', 'Vec::last')
